@@ -43,8 +43,9 @@ Record task := mkTask {
 }.
 
 (* one handler start: task, undo handler?, statuses of the prerequisites at that instant (wait tasks for do,
-   halt tasks for undo), and whether the schedule gate was open *)
-Definition start_rec : Type := (nat * bool * list status * bool)%type.
+   halt tasks for undo), whether the schedule gate was open, and whether this is a fresh start (Do->Doing /
+   Undo->Undoing status write) rather than a re-run of a task left in Doing / Undoing by Retry *)
+Record start_rec := mkSR { sr_t : nat; sr_undo : bool; sr_pre : list status; sr_gate : bool; sr_fresh : bool }.
 
 Record state := mkState {
   tasks : list task;
@@ -313,7 +314,8 @@ Definition run (s : state) (t : nat) : state :=
   let tk := get s t in
   let undo := match t_st tk with Undo | Undoing => true | _ => false end in
   let pre := map (st s) (if undo then t_halts tk else t_waits tk) in
-  let rec : start_rec := (t, undo, pre, gate_open s t) in
+  let fresh := match t_st tk with Do | Undo => true | _ => false end in
+  let rec := mkSR t undo pre (gate_open s t) fresh in
   let s1 := match t_st tk with Do => set_status s t Doing | Undo => set_status s t Undoing | _ => s end in
   let s2 := with_tasks s1 (upd (tasks s1) t (fun tk => set_at tk 0)) in
   with_slog (with_running s2 (t :: running s2)) (rec :: slog s2).
@@ -469,6 +471,29 @@ Record obs := mkObs {
 
 Inductive case := Case (g : list tdesc) (evs : list (event * obs)).
 
+(* compact constructors used by the driver's printer (numbers as N literals, no polymorphic pairs: keeps the
+   elaboration of the generated case files cheap) *)
+Definition nl (l : list N) : list nat := map N.to_nat l.
+Definition TD (lanes waits : list N) (u : bool) : tdesc := (nl lanes, nl waits, u).
+(* status vectors travel as one decimal number 1d1d2..dn (digit = position in the list below), id sets as bit masks *)
+Fixpoint digits (fuel : nat) (n : N) (acc : list N) : list N :=
+  match fuel with
+  | O => acc
+  | S f => if (n <? 10)%N then n :: acc else digits f (n / 10)%N ((n mod 10)%N :: acc)
+  end.
+Definition status_of_code (c : N) : status :=
+  nth (N.to_nat c) [Hold; Do; Doing; Done; Abort; Undo; Undoing; Undone; Error; Wait] Hold.
+Definition dec_sts (n : N) : list status := map status_of_code (tl (digits 60 n [])).
+Definition dec_set (n : N) : list nat := filter (fun i => N.testbit n (N.of_nat i)) (seq 0 64).
+Definition SR (t : N) (u : bool) (pre : N) (g fresh : bool) : start_rec := mkSR (N.to_nat t) u (dec_sts pre) g fresh.
+Definition OB (sts : N) (run : N) (rdy : bool) (cst : status) (rt : bool) (err failed : N)
+              (pnc : bool) (starts : list start_rec) (hook : bool) : obs :=
+  mkObs (dec_sts sts) (dec_set run) rdy cst rt (dec_set err) (dec_set failed) pnc starts hook.
+Definition EEnsure (n : N) : event := Ensure (seq 0 (N.to_nat n)).
+Definition EFinish (t : N) (o : outcome) : event := Finish (N.to_nat t) o.
+Definition EResolve (t : N) : event := Resolve (N.to_nat t).
+Definition EO (e : event) (o : obs) : event * obs := (e, o).
+
 Fixpoint insert_nat (x : nat) (l : list nat) : list nat :=
   match l with [] => [x] | y :: r => if Nat.leb x y then x :: l else y :: insert_nat x r end.
 Definition sort_nat (l : list nat) : list nat := fold_right insert_nat [] l.
@@ -480,12 +505,15 @@ Fixpoint list_eqb {A} (e : A -> A -> bool) (a b : list A) : bool :=
   | _, _ => false
   end.
 
-Definition rec_tid (r : start_rec) : nat := fst (fst (fst r)).
+Definition rec_tid (r : start_rec) : nat := sr_t r.
 Fixpoint insert_rec (x : start_rec) (l : list start_rec) : list start_rec :=
   match l with [] => [x] | y :: r => if Nat.leb (rec_tid x) (rec_tid y) then x :: l else y :: insert_rec x r end.
 Definition rec_eqb (a b : start_rec) : bool :=
-  let '(t1, u1, p1, g1) := a in let '(t2, u2, p2, g2) := b in
-  Nat.eqb t1 t2 && Bool.eqb u1 u2 && list_eqb seqb p1 p2 && Bool.eqb g1 g2.
+  (* the snapshot of a re-run may depend on Go's map iteration order inside one Ensure pass (a no-undo halt task
+     may or may not have been flipped Undo->Done yet), so it is compared for fresh starts only *)
+  Nat.eqb (sr_t a) (sr_t b) && Bool.eqb (sr_undo a) (sr_undo b)
+  && (negb (sr_fresh a) || list_eqb seqb (sr_pre a) (sr_pre b))
+  && Bool.eqb (sr_gate a) (sr_gate b) && Bool.eqb (sr_fresh a) (sr_fresh b).
 
 (* the driver calls the real Ensure until nothing changes any more; the model iterates ensure_pass with the
    same (canonical) order the same way: length+1 passes reach the fixpoint (see notes/C01.md, confluence) *)
@@ -524,13 +552,29 @@ Definition mismatch (c : case) : bool := let 'Case g evs := c in replay_mismatch
 
 (* C02: every do-handler start saw all wait tasks Done, every undo-handler start saw all halt tasks ready,
    the schedule gate was open, and the exact-instant hook agrees *)
-Definition start_ok (r : start_rec) : bool :=
-  let '(_, undo, pre, gate) := r in
-  gate && (if undo then forallb ready pre else forallb (fun x => seqb x Done) pre).
+Definition has_undo_g (g : list tdesc) (t : nat) : bool := snd (nth t g ([], [], false)).
+
+(* statuses paired with the prerequisite ids they belong to *)
+Fixpoint zip_ok (f : nat -> status -> bool) (ids : list nat) (pre : list status) : bool :=
+  match ids, pre with
+  | i :: r, x :: q => f i x && zip_ok f r q
+  | [], [] => true
+  | _, _ => false
+  end.
+
+(* a do start (fresh or re-run) saw every wait task Done; a fresh undo start saw every halt task ready; a re-run of
+   an undo handler saw every halt task ready, except possibly halt tasks WITHOUT undo handler sitting in Undo (they
+   have nothing to undo and flip back to Done in the same or the next Ensure pass; see notes/C02.md) *)
+Definition start_ok (g : list tdesc) (r : start_rec) : bool :=
+  sr_gate r
+  && (if sr_undo r
+      then zip_ok (fun h x => ready x || (negb (sr_fresh r) && negb (has_undo_g g h) && seqb x Undo))
+                  (halts_of g (sr_t r)) (sr_pre r)
+      else forallb (fun x => seqb x Done) (sr_pre r)).
 
 Definition monitor_fail02 (c : case) : bool :=
-  let 'Case _ evs := c in
-  existsb (fun eo => negb (forallb start_ok (o_starts (snd eo))) || negb (o_hook_ok (snd eo))) evs.
+  let 'Case g evs := c in
+  existsb (fun eo : event * obs => negb (forallb (start_ok g) (o_starts (snd eo))) || negb (o_hook_ok (snd eo))) evs.
 
 (* C01.  (a) undo starts only when every task that waited on it is ready (as C02);
    (b) an abort (handler error or Change.Abort) changes statuses only by Do->Hold, Doing->Abort, Done->Undo,
@@ -616,14 +660,29 @@ Definition last_obs (evs : list (event * obs)) : option obs :=
 (* (c) settled (every task ready, nothing running) after at least one handler failure: the change is in Error and
    ready; every task with an undo handler in the lower closure of a failed task is not left Done; and, when no
    user abort was issued, every task outside the upper closures of all failed tasks completed (Done). *)
-Definition has_undo_g (g : list tdesc) (t : nat) : bool := snd (nth t g ([], [], false)).
 Definition is_uabort (e : event) : bool := match e with UAbort => true | _ => false end.
+
+(* handlers use Wait as snapd's do: a do handler waits to become Done, an undo handler to become Undone *)
+Fixpoint waits_well_typed (prev : list status) (evs : list (event * obs)) : bool :=
+  match evs with
+  | [] => true
+  | (e, o) :: r =>
+    match e with
+    | Finish t (OWait u) => match nth t prev Hold with
+                            | Doing => negb u
+                            | Undoing => u
+                            | _ => true
+                            end
+    | _ => true
+    end && waits_well_typed (o_st o) r
+  end.
 
 Definition settle_ok (g : list tdesc) (evs : list (event * obs)) : bool :=
   match last_obs evs with
   | None => true
   | Some o =>
     if existsb (fun eo => o_panic (snd eo)) evs then true else
+    if negb (waits_well_typed (map (fun _ => Do) g) evs) then true else
     if negb (forallb ready (o_st o)) then true else       (* not settled: nothing to say *)
     match o_failed o with
     | [] => true
@@ -640,8 +699,8 @@ Definition settle_ok (g : list tdesc) (evs : list (event * obs)) : bool :=
 Definition monitor_fail01 (c : case) : bool :=
   let 'Case g evs := c in
   negb (forallb (fun eo : event * obs =>
-                   forallb (fun r : start_rec => let '(_, undo, pre, _) := r in
-                                                 if undo then forallb ready pre else true) (o_starts (snd eo))) evs)
+                   forallb (fun r : start_rec => if sr_undo r then start_ok g r else true)
+                           (o_starts (snd eo))) evs)
   || negb (abort_scan g (map (fun _ => Do) g) evs)
   || negb (settle_ok g evs).
 
